@@ -375,7 +375,7 @@ CHECKS = {
         level_text=("Writer: generated writer scenarios (wsim) in which Close is issued while callers run, with calls parked at the schedule points writer.entered / writer.beforeBatch until Close has marked the writer closed, slow / failing brokers, retries and batch timers; "
                     "oracles: Close returns (a hang is confirmed by two identical goroutine dumps), every accepted message was sent and its Completion ran before Close returned, nothing is produced or completed after Close returned, WriteMessages after Close = io.ErrClosedPipe, no library goroutine is left. "
                     "Reader: plain and group readers with a call blocked in FetchMessage / CommitMessages, then Close or context end, against a normal / slow / fetch-stalling / heartbeat-stalling broker, also Close during a rebalance; oracles: bounded Close, LeaveGroup sent, no heartbeat / commit / fetch journalled after Close returned, "
-                    "io.EOF after Close, context error on cancel within 1 s, goroutine and connection census. ConsumerGroup used directly: 1-3 members in the usual Next/Start loop, Close during the join, inside a generation, after a forced rebalance or with an error pending, against coordinator errors and stalls (JoinGroup, Heartbeat, OffsetCommit or LeaveGroup never answered); oracles: bounded Close, Next = ErrGroupClosed afterwards, no group request after Close, goroutine and connection census. Transport: round trips with a stalled response or a black-holed dial return the context's error when the context ends."),
+                    "io.EOF after Close, context error on cancel within 1 s, goroutine and connection census. ConsumerGroup used directly: 1-3 members in the usual Next/Start loop, Close during the join, inside a generation, after a forced rebalance or with an error pending, against coordinator errors and stalls (JoinGroup, Heartbeat, OffsetCommit or LeaveGroup never answered); oracles: bounded Close, Next = ErrGroupClosed afterwards, no group request after Close, goroutine and connection census. Transport: round trips with a stalled response or a black-holed dial return the context's error when the context ends. Reader stratum commit-flood: with interval commits and a coordinator that does not answer OffsetCommit the application goes on committing until the commit queue is full and CommitMessages itself blocks; its context then ends."),
         level_note="interleavings are sampled (schedule points own the known windows, the rest is the Go scheduler); 'bounded' = watchdogs of several seconds, late-but-returned is inconclusive; goroutine census by stack dump",
         rule=("case = (scenario, schedule table, broker behaviour, blocked call, ending event); non-trivial = Close or context end overlapped a call in flight (a caller returned after Close started, a call was parked at a schedule point, or a call was blocked when the event fired); "
               "distinct by the case value."),
